@@ -206,6 +206,64 @@ def check_structural(corr: int, k: int, w0: int, covn: int) -> bool:
 def check(k: int, covn: int, w0: int, w1: int, ign: int, corr: int, wtc: int) -> bool:
     return _verdict(k, covn, w0, w1, ign, corr, wtc)
 
+def check_node_valid(w0: int, w1: int, ign: int, opt: int) -> bool:
+    """
+    pre: -2 <= w0 <= 3 and -2 <= w1 <= 3
+    pre: -1 <= ign <= 1
+    pre: 0 <= opt <= 4
+    post: _
+    """
+    # node-weighted input of the same graph: the converse direction (documented options on valid input are accepted) and
+    # negative node weights. A node without the attribute counts as ignored (documented), so only -1 is invalid.
+    invalid = False
+    for j in range(2):
+        c = w0 if j == 0 else w1
+        if c == -1 and ign != j:
+            invalid = True
+        if c == -2 or c == 0:
+            pass
+    r0, r1, ri, ro = _conc(w0, -2, 3), _conc(w1, -2, 3), _conc(ign, -1, 1), _conc(opt, 0, 4)
+    with NoTracing():
+        G = nx.DiGraph()
+        G.add_edges_from([(u, v) for (u, v, _f) in BASE])
+        names = sorted(G.nodes())
+        sym = [names[0], names[-1]]
+        for v in G.nodes():
+            G.nodes[v]["flow"] = 3
+        for j, c in enumerate([r0, r1]):
+            if c == -2:
+                del G.nodes[sym[j]]["flow"]
+            else:
+                G.nodes[sym[j]]["flow"] = c
+        kw = dict(weight_type=int, flow_attr_origin="node")
+        if KMODEL:
+            kw["k"] = 2
+        if ri >= 0:
+            kw["elements_to_ignore"] = [sym[ri]]
+        inner = [v for v in names if G.in_degree(v) > 0 and G.out_degree(v) > 0]
+        if ro == 1 and HAS_STARTS:
+            kw["additional_starts"] = [inner[0]]
+            kw["additional_ends"] = [inner[-1]]
+        elif ro == 2:
+            kw["error_scaling"] = dict([(inner[0], 0.5)])
+        elif ro == 3 and CLS == "kMinPathErrorCycles" and ri < 0:
+            kw["elements_to_ignore_percentile"] = 30
+        elif ro == 4:
+            kw[CKEY] = [[inner[0]]]
+        try:
+            m = getattr(fp, CLS)(G, "flow", **kw)
+            m.solve()
+            outcome = "ok"
+        except ValueError:
+            outcome = "ValueError"
+        except Exception as e:
+            outcome = type(e).__name__
+    if invalid and ro == 3 and CLS == "kMinPathErrorCycles" and ri < 0:
+        return True        # a negative weight below the percentile is itself ignored by the percentile rule: no claim
+    if invalid:
+        return outcome == "ValueError"
+    return outcome == "ok"
+
 BIG = [1, 1000, 3000000000, 2 ** 45]
 
 def check_magnitude(scale: int, d: int, where: int, asfloat: int) -> bool:
@@ -300,6 +358,7 @@ CLASSES = {
 def gen_tasks(tier, seed):
     tasks = [{"cls": c, "fn": fn, **v} for fn in ("check_structural", "check_numeric", "check_ignore", "check_reuse") for c, v in CLASSES.items()]
     tasks += [{"cls": c, "fn": "check_magnitude", **v} for c, v in CLASSES.items() if v["flowdec"]]
+    tasks += [{"cls": c, "fn": "check_node_valid", **v} for c, v in CLASSES.items() if c in ("kLeastAbsErrors", "kMinPathError", "kLeastAbsErrorsCycles", "kMinPathErrorCycles")]
     for i, t in enumerate(tasks):
         t["tid"] = i
     return tasks
@@ -351,8 +410,8 @@ def _normalise(call):
         return ("check", [1, 4, w0, w1, ign, 0, 0], {})
     if fn == "check_reuse":
         return ("check_reuse", list(pos), {})
-    if fn == "check_magnitude":
-        return ("check_magnitude", list(pos), dict(kw))
+    if fn in ("check_magnitude", "check_node_valid"):
+        return (fn, list(pos), dict(kw))
     if fn == "check_structural":
         corr, k, w0, covn = pos
         return ("check", [k, covn, w0, 3, -1, corr, 0], {})
@@ -367,6 +426,10 @@ def _diag(task, call):
         return "graph-object-reused-after-in-place-edit"
     if fn == "check_magnitude":
         return "conservation-not-decided-exactly-at-large-magnitude"
+    if fn == "check_node_valid":
+        a = dict(zip(["w0", "w1", "ign", "opt"], pos)); a.update(kw)
+        neg = (a["w0"] == -1 and a["ign"] != 0) or (a["w1"] == -1 and a["ign"] != 1)
+        return ("node-mode:negative-node-weight->ok" if neg else "node-mode:valid-input-rejected:" + ["plain", "starts-ends", "error_scaling", "percentile", "constraint"][a["opt"]])
     names = ["k", "covn", "w0", "w1", "ign", "corr", "wtc"]
     a = dict(zip(names, pos))
     a.update(kw)
